@@ -130,6 +130,44 @@ def cases(rng, tier):
             model = f'(enc_out enc_machine enc_unit (ArmV6_mem_u_with_priv_set {cfg} {a} {size} 1 0 {m}))'
             spec = f'(enc_out enc_machine enc_unit (Exc (EDataAbort 2 0) (pmsa_fault_state {m} {a} 1 FS_alignment)))'
         out.append({'impl': impl, 'model': model, 'spec': spec, 'label': 'memu_alignment_fault', 'nontrivial': True})
+    # MemU under the MPU with the caller's privilege (LDRT/STRT-style overrides from a privileged mode included): aligned,
+    # unaligned byte-by-byte (SCTLR.U = 1, A = 0) across region boundaries, and strict-alignment faults
+    iscr = t['sys_names'].index('scr')
+    for _ in range(ncase // 2):
+        cfgd, st, n = mk_state(rng, t)
+        n = 12
+        st['sys'][t['sys_names'].index('mpuir')] = n << 8
+        st['sys'][isc] = (st['sys'][isc] | 1 | (1 << 22)) & ~2
+        if rng.random() < 0.15:
+            st['sys'][isc] |= 2
+        for r in range(12):
+            st['sysl'][il['drsrs']][r] &= ~1
+        hi_base = 0x1000 + 32 * rng.randrange(2, 24)
+        st['sysl'][il['drsrs']][2] = (11 << 1) | 1
+        st['sysl'][il['drbars']][2] = 0x1000
+        st['sysl'][il['dracrs']][2] = 3 << 8
+        st['sysl'][il['drsrs']][7] = (4 << 1) | 1                      # 32 bytes with a restrictive AP
+        st['sysl'][il['drbars']][7] = hi_base
+        st['sysl'][il['dracrs']][7] = rng.choice([1, 1, 2, 0, 5, 6]) << 8
+        size = rng.choice([2, 4, 4, 8])
+        a = hi_base + rng.choice([-3, -2, -1, 0, 1, 2, 3, 29, 30, 31, 32])
+        priv = rng.choice([0, 1])
+        st['sys'][iscr] = 0
+        cfg = statelib.coq_config(cfgd, t)
+        m = statelib.coq_machine(st)
+        arch = cfgd['arch_version']
+        if rng.random() < 0.5:
+            impl = {'kind': 'method', 'state': st, 'method': 'mem_u_with_priv_get', 'args': [a, size, bool(priv)], 'rt': ['Z']}
+            model = f'(enc_out enc_machine enc_Z (ArmV6_mem_u_with_priv_get {cfg} {a} {size} {priv} {m}))'
+            spec = f'(enc_out enc_machine enc_Z (MemU_get_mpu_spec {arch} {n}%nat true {m} {a} {size} {b(priv)}))'
+            lab = 'memu_mpu_read'
+        else:
+            value = rng.getrandbits(8 * size)
+            impl = {'kind': 'method', 'state': st, 'method': 'mem_u_with_priv_set', 'args': [a, size, bool(priv), value], 'rt': ['unit']}
+            model = f'(enc_out enc_machine enc_unit (ArmV6_mem_u_with_priv_set {cfg} {a} {size} {priv} {value} {m}))'
+            spec = f'(enc_out enc_machine enc_unit (MemU_set_mpu_spec {arch} {n}%nat true {m} {a} {size} {value} {b(priv)}))'
+            lab = 'memu_mpu_write'
+        out.append({'impl': impl, 'model': model, 'spec': spec, 'label': lab, 'nontrivial': True})
     return out
 
 
